@@ -21,6 +21,7 @@ class Profile:
         self.blocks = True
         self.max_depth = 2
         self.enums = True
+        self.enum_same_name = False   # enum named like its own field set
         self.conversions = True
         self.reset_values = True
         self.cfgs = False
@@ -86,6 +87,9 @@ class Gen:
                 elif p.enums and w <= 16:
                     self.enum_count += 1
                     ename = "En" + FIELD_NAMES[i].capitalize() + owner + tag.capitalize()
+                    if p.enum_same_name and not any(f["conv"] and f["conv"]["type"] == "enum" for f in out) and rng.random() < 0.2:
+                        # an enum named like the field set it sits in (legal: field sets live in `mod field_sets`)
+                        ename = owner + {"": "", "in": "FieldsIn", "out": "FieldsOut"}[tag]
                     kind = rng.random()
                     if kind < 0.3:
                         vs = [adef.mk_variant("Va"), adef.mk_variant("Vb", "default")]
